@@ -667,6 +667,15 @@ theorem next_load (st st' : RState) (h1 : st.err = false) (h2 : st.cursor < st.r
   rw [if_neg (by simp [h1]; omega), if_pos h3, h4]
   simp only [skipEmpty_nonempty _ st' h5]
 
+/-- the general form: the loaded row group may hold no rows, the skipping loop then runs on to `st''` -/
+theorem next_load_skip (st st' st'' : RState) (h1 : st.err = false) (h2 : st.cursor < st.rows)
+    (h3 : st.rgCursor ≥ st.rgCount) (h4 : st.readRowGroup = .ok st')
+    (h5 : st'.skipEmpty st'.rowGroups.length = .ok st'') :
+    st.next = .ok (true, { st'' with cursor := st''.cursor + 1, rgCursor := st''.rgCursor + 1 }) := by
+  unfold RState.next
+  rw [if_neg (by simp [h1]; omega), if_pos h3, h4]
+  simp only [h5]
+
 theorem next_done (st : RState) (h1 : st.err = false) (h2 : st.cursor ≥ st.rows) : st.next = .ok (false, st) := by
   unfold RState.next
   rw [if_pos (by simp [h1]; omega)]
